@@ -55,6 +55,10 @@ Theorem C16_merge_distinct :
          forall a b : list (K * V), wfm K V keq (a_merge keq a b).
 Proof. exact a_merge_wf. Qed.
 
+Example C16_merge_distinct_example :
+  (forall a b : val, keq a b = keq b a) /\ wfm val val keq (a_merge keq ex_cat ex_cat2) /\ wfm val val keq (a_merge keq ex_cat ex_cat).
+Proof. split; [exact keq_sym|]. split; apply (C16_merge_distinct val val keq keq_sym). Qed.
+
 Theorem C16_extract_only_requested_and_present :
   forall (K V : Type) (keq : K -> K -> bool),
          (forall a b : K, keq a b = keq b a) ->
@@ -78,6 +82,10 @@ Theorem C16_extract_distinct :
          (forall a b : K, keq a b = keq b a) ->
          forall (c : list (K * V)) (ks : list K), wfm K V keq (a_extract keq c ks).
 Proof. exact a_extract_wf. Qed.
+
+Example C16_extract_distinct_example :
+  (forall a b : val, keq a b = keq b a) /\ wfm val val keq (a_extract keq ex_cat ex_req).
+Proof. split; [exact keq_sym|]. apply (C16_extract_distinct val val keq keq_sym). Qed.
 
 Theorem C16_go_key_equality_is_symmetric :
   forall a b : val, keq a b = keq b a.
